@@ -568,7 +568,12 @@ class Bits:
                 raise bitstring.CreationError(f"Can't use a negative offset ({offset}).")
             if length is not None and length < 0:
                 raise bitstring.CreationError(f"Can't create bitstring of negative length {length}.")
-            m = mmap.mmap(source.fileno(), 0, access=mmap.ACCESS_READ)
+            fileno = source.fileno()
+            try:
+                m = mmap.mmap(fileno, 0, access=mmap.ACCESS_READ)
+            except ValueError:
+                # An empty file can't be memory mapped.
+                m = b''
             if offset == 0:
                 self._filename = source.name
                 self._bitstore = BitStore.frombuffer(m, length=length)
